@@ -192,11 +192,16 @@ func Drain(r io.Reader, policy string) (res Result) {
 		}
 	default:
 		var size int
-		fmt.Sscanf(policy, "buf%d", &size)
-		if size <= 0 {
-			size = 4096
+		var buf []byte
+		if _, err := fmt.Sscanf(policy, "win%d", &size); err == nil && size > 0 {
+			buf = make([]byte, size, 200000) // a short window of a large reusable buffer: len(p) < cap(p)
+		} else {
+			fmt.Sscanf(policy, "buf%d", &size)
+			if size <= 0 {
+				size = 4096
+			}
+			buf = make([]byte, size)
 		}
-		buf := make([]byte, size)
 		for {
 			n, err := r.Read(buf)
 			if n > len(buf) || n < 0 {
@@ -224,7 +229,7 @@ func Drain(r io.Reader, policy string) (res Result) {
 	return
 }
 
-var ReadPolicies = []string{"readall", "copy", "copyplain", "buf1", "buf7", "buf65536", "buf100000"}
+var ReadPolicies = []string{"readall", "copy", "copyplain", "buf1", "buf7", "buf65536", "buf100000", "win1000", "win70000"}
 
 // ---------------------------------------------------------------- sources and destinations
 
